@@ -121,6 +121,35 @@ func collect(ctx context.Context, progress <-chan graphsync.ResponseProgress, er
 	return res
 }
 
+// request issues a request and collects what its caller sees, all within d.  Request() itself can block (it
+// hands the request to the request manager's loop): that, too, is bounded, and reported as hung.
+func request(ctx context.Context, gs graphsync.GraphExchange, p peer.ID, root ipld.Link, sel ipld.Node, d time.Duration) *reqResult {
+	type chans struct {
+		p <-chan graphsync.ResponseProgress
+		e <-chan error
+	}
+	start := time.Now()
+	issued := make(chan chans, 1)
+	rctx, cancel := context.WithCancel(ctx)
+	go func() {
+		pc, ec := gs.Request(rctx, p, root, sel)
+		issued <- chans{pc, ec}
+	}()
+	select {
+	case c := <-issued:
+		rest := d - time.Since(start)
+		if rest < time.Second {
+			rest = time.Second
+		}
+		res := collect(ctx, c.p, c.e, rest)
+		cancel() // the request is over, or given up
+		return res
+	case <-time.After(d):
+		cancel()
+		return &reqResult{Hung: true, Errs: []string{"Request() did not return"}}
+	}
+}
+
 func stored(s *e2e.Store, d *pdag) []int {
 	out := []int{}
 	for i, b := range d.Blocks {
@@ -171,11 +200,9 @@ func runChild(c pCase, resultPath string) error {
 		resp.RegisterIncomingRequestHook(func(p peer.ID, rd graphsync.RequestData, ha graphsync.IncomingRequestHookActions) {
 			ha.ValidateRequest()
 		})
-		p2, e2 := req.Request(w.Ctx, w.Nodes[1].ID(), d2.root(), sel)
-		out.Solo2 = collect(w.Ctx, p2, e2, reqDeadline)
+		out.Solo2 = request(w.Ctx, req, w.Nodes[1].ID(), d2.root(), sel, reqDeadline)
 		out.Solo2.Stored = stored(w.Nodes[0].Store, d2)
-		p3, e3 := req.Request(w.Ctx, w.Nodes[1].ID(), d3.root(), sel)
-		out.Solo3 = collect(w.Ctx, p3, e3, reqDeadline)
+		out.Solo3 = request(w.Ctx, req, w.Nodes[1].ID(), d3.root(), sel, reqDeadline)
 		out.Solo3.Stored = stored(w.Nodes[0].Store, d3)
 		w.Close()
 	}
@@ -186,7 +213,11 @@ func runChild(c pCase, resultPath string) error {
 	if err != nil {
 		return err
 	}
-	defer w.Close()
+	defer func() {
+		if !anyHung(out) {
+			w.Close() // with stuck goroutines around, closing may itself wait: the process is about to exit anyway
+		}
+	}()
 	for _, d := range []*pdag{d1, d2, d3} {
 		for _, b := range d.Blocks {
 			w.Nodes[1].Store.Put(cidlink.Link{Cid: b.Cid}, b.Data)
@@ -254,8 +285,7 @@ func runChild(c pCase, resultPath string) error {
 	var r2res *reqResult
 	r2done := make(chan struct{})
 	go func() {
-		p2, e2 := req.Request(w.Ctx, w.Nodes[1].ID(), d2.root(), sel)
-		r2res = collect(w.Ctx, p2, e2, 6*reqDeadline) // bounded below by the wait after the release
+		r2res = request(w.Ctx, req, w.Nodes[1].ID(), d2.root(), sel, 6*reqDeadline) // bounded below by the wait after the release
 		close(r2done)
 	}()
 	select {
@@ -267,8 +297,7 @@ func runChild(c pCase, resultPath string) error {
 	flush("r2-held")
 
 	in.r1Active.Store(true)
-	p1, e1 := req.Request(w.Ctx, w.Nodes[1].ID(), d1.root(), sel)
-	out.R1 = collect(w.Ctx, p1, e1, reqDeadline)
+	out.R1 = request(w.Ctx, req, w.Nodes[1].ID(), d1.root(), sel, reqDeadline)
 	in.r1Active.Store(false)
 	out.R1.Stored = stored(w.Nodes[0].Store, d1)
 	out.Fired = in.fired
@@ -284,8 +313,7 @@ func runChild(c pCase, resultPath string) error {
 	out.R2.Stored = stored(w.Nodes[0].Store, d2)
 	flush("r2-ended")
 
-	p3, e3 := req.Request(w.Ctx, w.Nodes[1].ID(), d3.root(), sel)
-	out.R3 = collect(w.Ctx, p3, e3, reqDeadline)
+	out.R3 = request(w.Ctx, req, w.Nodes[1].ID(), d3.root(), sel, reqDeadline)
 	out.R3.Stored = stored(w.Nodes[0].Store, d3)
 
 	// the responder reports r1's terminal status asynchronously (after the message was sent)
